@@ -9,8 +9,8 @@
   `windingE_cross` the winding numbers of `m₁` and `m₂` about the second ring differ by one.
 
   Consequences: `II = F` is impossible (both would be `0`: `rings_no_common_nonvertex_ii`), and so is
-  `BE = F` when the winding number of the second ring takes only two values
-  (`rings_no_common_nonvertex_be`).
+  `BE = F` when one side of every edge of the second ring is outside (`rings_no_common_nonvertex_be`;
+  the hypothesis holds for every simple ring, `WINDJordan.edgeJordan`).
 -/
 import GeoProofs.Lemmas.WINDLink
 import GeoProofs.Lemmas.WINDHoles
@@ -401,15 +401,17 @@ theorem rings_no_common_nonvertex_ii {ra rb : List Pt} (hsa : ringSimple ra = tr
     exact ii_empty_ring_not_inside hsa hsb hii on2 ((locate_polyOf_inside_iff rb m₂).mpr ⟨off2, hw⟩)
   omega
 
-/-- the winding number about the ring takes at most one non-zero value off the ring -/
-def TwoValued (r : List Pt) : Prop :=
-  ∃ c : Int, ∀ p : Pt, onAnySeg p (segs r) = false →
-    windingE (EPt.ofPt p) r = 0 ∨ windingE (EPt.ofPt p) r = c
+/-- one side of every edge is outside: beside every point of the ring that is not one of its
+coordinates, one of the two face samples has winding number `0` (proved for every simple ring in
+`WINDJordan.edgeJordan`) -/
+def EdgeOuter (r : List Pt) : Prop :=
+  ∀ a b P, (a, b) ∈ segs r → SegMem P a b → P ∉ r →
+    windingE (faceL a b P) r = 0 ∨ windingE (faceR a b P) r = 0
 
-/-- `BE = F`, `BB` of dimension ≤ 0 and a two-valued winding number of the second ring: no common
+/-- `BE = F`, `BB` of dimension ≤ 0 and one side of every edge of the second ring outside: no common
 point that is a coordinate of neither -/
 theorem rings_no_common_nonvertex_be {ra rb : List Pt} (hsa : ringSimple ra = true)
-    (hsb : ringSimple rb = true) (htv : TwoValued rb)
+    (hsb : ringSimple rb = true) (hout : EdgeOuter rb)
     (hbe : (relateParts (polyOf ra) (polyOf rb)).be = .empty)
     (hbb : dimLe0 (relateParts (polyOf ra) (polyOf rb)).bb = true) {P : Pt}
     (h1 : onAnySeg P (segs ra) = true) (hna : P ∉ ra)
@@ -417,10 +419,14 @@ theorem rings_no_common_nonvertex_be {ra rb : List Pt} (hsa : ringSimple ra = tr
   rw [Geo.Proofs.Loc.onAnySeg_iff] at h1 h2
   obtain ⟨⟨a1, b1⟩, he1, hl1⟩ := h1
   obtain ⟨⟨a2, b2⟩, he2, hl2⟩ := h2
+  have hP2 : SegMem P a2 b2 := (lineCoord_iff _ _ _).mp hl2
   obtain ⟨hone, hab2, hPa2, hPb2, m₁, m₂, on1, on2, off1, off2, s1, s2, c1, c2⟩ :=
-    crossing_points hsa hsb hbb he1 ((lineCoord_iff _ _ _).mp hl1) hna he2 ((lineCoord_iff _ _ _).mp hl2) hnb
+    crossing_points hsa hsb hbb he1 ((lineCoord_iff _ _ _).mp hl1) hna he2 hP2 hnb
   have hokb := ringOK_of_simple hsb
-  have hcross := windingE_cross rb hokb.1 hone hab2 ((lineCoord_iff _ _ _).mp hl2) hPa2 hPb2 s1 s2 c1 c2
+  have l1 := windingE_link rb hokb.1 hone hab2 hP2 hPa2 hPb2 (ne_of_gt s1) c1
+  have l2 := windingE_link rb hokb.1 hone hab2 hP2 hPa2 hPb2 (ne_of_lt s2) c2
+  rw [if_pos s1] at l1
+  rw [if_neg (by linarith)] at l2
   have n1 : windingE (EPt.ofPt m₁) rb ≠ 0 := by
     intro hw
     exact hole_point_not_outside hokb.1 hokb.2 hbe on1
@@ -429,11 +435,8 @@ theorem rings_no_common_nonvertex_be {ra rb : List Pt} (hsa : ringSimple ra = tr
     intro hw
     exact hole_point_not_outside hokb.1 hokb.2 hbe on2
       ((locate_polyOf_outside_iff rb hokb.2 m₂).mpr ⟨off2, hw⟩)
-  obtain ⟨c, hc⟩ := htv
-  rcases hc m₁ off1 with e1 | e1
-  · exact n1 e1
-  · rcases hc m₂ off2 with e2 | e2
-    · exact n2 e2
-    · omega
+  rcases hout a2 b2 P he2 hP2 hnb with e | e
+  · exact n1 (l1.trans e)
+  · exact n2 (l2.trans e)
 
 end Geo.Proofs.WIND
